@@ -45,6 +45,13 @@ CLAIMED = {
         "change_encoding (contiguous arrays and row-reordered views); oracle is a Python model of each alphabet and text equality.",
         "Holds on the explored region; the byte-level part is complete. Hash collisions of StringEncoding are out of reach of random search.",
         "exhaustive byte enumeration + Hypothesis generation, reference-model oracle and text-preservation (metamorphic) oracle"),
+    "C07": (
+        "Model-based generated histories: Hypothesis draws an initial list of strings and a program of NumPy-style operations (row and column "
+        "indexing of every kind, reversal, comparisons, item assignment on copies, concatenate, copy, ravel, split / join / str_equal) over a pool "
+        "of earlier results, including non-contiguous views; after every step the real object must decode to the list-of-strings model and keep "
+        "the operand's encoding.",
+        "Holds on the explored region only (4 encodings). The list model has no view aliasing, so assignment is only made on fresh copies and the original is re-checked.",
+        "Hypothesis-generated operation programs interpreted against a list-of-strings reference model"),
     "C15": (
         "Fault injection over generated inputs: one format violation of each class is injected at every record position of a well-formed file; "
         "exhaustive over small files x every chunk size x lazy/eager x plain/gzip, sampled for larger files of nine formats. Oracle: an exception "
